@@ -220,11 +220,11 @@ def mcos(ctx, a, np_style=False):
     return Sym(COS(t), np.float64 if np_style else float)
 
 
-def msqrt(ctx, a, np_style=False):
+def msqrt(ctx, a, np_style=False, nonneg=False):
     if type(a) is not Sym:
         return np.sqrt(a) if np_style else math.sqrt(a)
     t = z3.simplify(real_term(a))
-    if ctx.branch(t < 0):
+    if not nonneg and ctx.branch(t < 0):
         if np_style:
             raise Unsupported("numpy sqrt of a negative number (nan outside the model)")
         raise PyExc(ValueError, ("math domain error",))
